@@ -22,6 +22,7 @@ REPS = {
     "int_u8": [0, 1, 255], "int_u16": [256, 65535],
     "int_big": [65536, 2**31 - 1, 2**31, 2**32 - 1, 2**32, 2**63 - 1, 2**63, 2**64 + 7, 10**30],
     "int_neg": [-1, -255, -256, -65536, -2**31, -2**31 - 1, -2**63 - 1, -10**25],
+    "int_huge": [10**5000, -(10**4400), 1 << 20000],        # more decimal digits than the interpreter converts to text
     "float_integral": [1.0, -0.0, 3.0, 1e300], "float_fractional": [1.5, -2.25, 1e-300],
     "float_inf": [float("inf"), float("-inf")], "float_nan": [float("nan")],
     "str_numeric": ["123", "-7", " 12 ", "1_000", "+5", "٣", "007"],
@@ -39,7 +40,17 @@ REPS = {
 FN = "def verif_fn(obj, *a):\n    import verif_sink\n    verif_sink.calls.append(('fn', a, {}))\n    return obj\n"
 
 
+def srep(v):
+    """repr that also works for integers beyond the interpreter's int->str digit limit"""
+    if isinstance(v, int) and not isinstance(v, bool) and v.bit_length() > 12000:
+        return "int:hex:" + hex(v)[:24] + f"...({v.bit_length()} bits)"
+    return repr(v)
+
+
 def td(v):
+    if isinstance(v, int) and not isinstance(v, bool) and v.bit_length() > 12000:
+        import hashlib
+        return ["int", "hex:" + hashlib.sha1(hex(v).encode()).hexdigest()]
     if isinstance(v, (list, tuple)):
         return [type(v).__name__] + [td(x) for x in v]
     if isinstance(v, dict):
@@ -88,7 +99,7 @@ def opcode_cases(fk):
     """(class name, constructor thunk, intended argument or marker)"""
     C = fk.OPCODES_BY_NAME
     cases = []
-    ints = [0, 1, 255, 256, 65535, 65536, -1, -128, 2**31 - 1, -2**31, 2**31, 10**30]
+    ints = [0, 1, 255, 256, 65535, 65536, -1, -128, 2**31 - 1, -2**31, 2**31, 10**30, 10**5000, -(1 << 20000)]
     strs = ["abc", "", "café", "a'b", 'q"q', "line\nbreak", "back\\slash", "中", "x" * 300]
     byts = [b"abc", b"", b"\x00\xff", b"y" * 300]
     for name, cls in sorted(C.items()):
@@ -137,13 +148,14 @@ def opcode_cases(fk):
 def run(ctx):
     import fickling.fickle as fk
     cells = {}
-    for strict in ("TRUE", "FALSE"):
-        cfg = open(os.path.join(tlc.SPEC, "Const.cfg.tmpl")).read().replace("@STRICT@", strict)
-        if strict == "FALSE":
+    for strict, hexfb in (("TRUE", "FALSE"), ("FALSE", "FALSE"), ("TRUE", "TRUE")):
+        cfg = open(os.path.join(tlc.SPEC, "Const.cfg.tmpl")).read().replace("@STRICT@", strict).replace("@HEX@", hexfb)
+        if strict == "FALSE" or hexfb == "TRUE":
             r = tlc.run("Const", cfg, workers=1, timeout=300)
-            if r["ok"]:
-                raise MachineryError("negative model (int(obj) validator) was not refuted by RoundTrip")
-            ctx.notes.append("negative design model (Int.validate = int(obj)) refuted by TLC as expected")
+            inv = "RoundTripInv" if strict == "FALSE" else "ReadBackInv"
+            if r["ok"] or inv not in r["error"]:
+                raise MachineryError(f"negative model (StrictInt={strict}, HexFallback={hexfb}) was not refuted by {inv}")
+            ctx.notes.append(f"negative design model (StrictInt={strict}, HexFallback={hexfb}) refuted by TLC ({inv}) as expected")
         else:
             r = tlc.run("Const", cfg, workers=1, timeout=300)
             ctx.add_tlc("design:Const", r)
@@ -159,12 +171,16 @@ def run(ctx):
     for cls, v in passes + passes[::-1]:
         if True:
             for via in vias + (["cli_inject", "cli_create"] if isinstance(v, str) else []):
-                rec = {"id": len(recs), "kind": "inject", "cls": cls, "via": via, "value": repr(v)[:60], "outcome": "", "detail": ""}
+                rec = {"id": len(recs), "kind": "inject", "cls": cls, "via": via, "value": srep(v)[:60], "outcome": "", "detail": ""}
                 try:
                     data, mode = build(fk, via, v, ctx.tmp, len(recs))
                     rec["hex"] = data.hex()[:300]
                     want = td(v) if mode == "result" else ([td("first"), td(v)] if via == "insert_python_two" else [td(v)])
                     rec["_want"] = want
+                    try:        # the opcode objects the helper constructed: the standard disassembler must read what they encode to
+                        list(pickletools.genops(data))
+                    except Exception as e:  # noqa: BLE001
+                        rec["_undis"] = type(e).__name__
                     items.append({"id": rec["id"], "hex": data.hex(), "mode": mode})
                 except Exception as e:  # noqa: BLE001
                     rec["outcome"], rec["detail"] = "refused", type(e).__name__
@@ -176,7 +192,7 @@ def run(ctx):
                     except Exception:  # noqa: BLE001
                         got = "refused"
                     if got != cells[cls]["chosen"]:
-                        ctx.drift.append(f"ConstantOpcode.new({v!r:.30}) picked {got}, spec/Const.tla says {cells[cls]['chosen']}")
+                        ctx.drift.append(f"ConstantOpcode.new({srep(v):.30}) picked {got}, spec/Const.tla says {cells[cls]['chosen']}")
     pj, outp = os.path.join(ctx.tmp, "c15_in.json"), os.path.join(ctx.tmp, "c15_out.json")
     json.dump(items, open(pj, "w"))
     env = dict(os.environ, PYTHONPATH=os.pathsep.join([ROOT] + ([os.environ["VERIF_REPO"]] if os.environ.get("VERIF_REPO") else [])))
@@ -186,14 +202,17 @@ def run(ctx):
     for o in json.load(open(outp)):
         rec = recs[o["id"]]
         want = rec.pop("_want")
-        if o["ok"] and json.loads(json.dumps(want)) == o["got"]:
+        undis = rec.pop("_undis", None)
+        if undis:
+            rec["outcome"], rec["detail"] = "different", f"sent {rec['value']}: the pickle that was built cannot be disassembled ({undis})"
+        elif o["ok"] and json.loads(json.dumps(want)) == o["got"]:
             rec["outcome"] = "same"
         else:
             rec["outcome"] = "different"
             rec["detail"] = (f"sent {rec['value']} got {json.dumps(o['got'])[:80]}").replace('"', "'")
     # second half: opcode objects
     for name, thunk, intended in opcode_cases(fk):
-        rec = {"id": len(recs), "kind": "encode", "cls": name, "via": "encode", "value": repr(intended)[:60], "outcome": "", "detail": ""}
+        rec = {"id": len(recs), "kind": "encode", "cls": name, "via": "encode", "value": srep(intended)[:60], "outcome": "", "detail": ""}
         try:
             enc = thunk().encode()
         except Exception as e:  # noqa: BLE001
@@ -213,9 +232,9 @@ def run(ctx):
             nops = len(ops) == (1 if name == "STOP" else 2)
             rec["outcome"] = "same" if (okname and okarg and nops) else "different"
             if rec["outcome"] == "different":
-                rec["detail"] = f"built from {intended!r:.40} read back as {info.name} {arg!r:.40}".replace('"', "'")
+                rec["detail"] = f"built from {srep(intended):.40} read back as {info.name} {srep(arg):.40}".replace('"', "'")
         except Exception as e:  # noqa: BLE001
-            rec["outcome"], rec["detail"] = "different", f"built from {intended!r:.40}: disassembler raises {type(e).__name__}".replace('"', "'")
+            rec["outcome"], rec["detail"] = "different", f"built from {srep(intended):.40}: disassembler raises {type(e).__name__}".replace('"', "'")
         recs.append(rec)
     for rec in recs:
         rec.pop("_want", None)
